@@ -60,7 +60,20 @@ def instances(tier: str) -> list[dict]:
                     inst.update({"nodes": nodes, "window": [list(p) for p in win], "background": [list(p) for p in bg]})
                 out.append(inst)
 
+    def add_windowed(tree, naming, max_s, max_o, k, kinds=("named", "sub")):
+        # trees whose full relation exceeds the path budget: a window of k symbolic pairs that always holds the
+        # imports of a package into its own deeper descendants (they stay inside the module, so they must not matter)
+        nodes = concrete(tree, naming)
+        wrnd = random.Random(runner.seed() * 11 + len(tree) + len(naming))
+        for sk, S, ok, O in unrelated_filter_sets(nodes, max_s, max_o, kinds):
+            for verb, direction, exc in SHAPES:
+                spec = RuleSpec(verb, direction, exc, sk, S, ok, O)
+                win, bg = sensitive_window(wrnd, nodes, spec, k, force=deep_self_imports(nodes))
+                out.append({"tree": tree, "naming": naming, "nodes": nodes, "window": [list(p) for p in win], "background": [list(p) for p in bg], "spec": spec.as_json()})
+
     if tier == "quick":
+        add_windowed("T5e", "neutral", 1, 1, 10)
+        add_windowed("T6c", "adv", 1, 1, 10, kinds=("named",))
         add_side_related("T4n", "neutral", 2, 2)
         add_side_related("T5h", "adv", 2, 2, window=11)
         add("T4", "neutral", 2, 2)
@@ -69,6 +82,9 @@ def instances(tier: str) -> list[dict]:
         add("T5b", "adv", 1, 1)
         add("F4", "neutral", 2, 2, kinds=("named",))
     else:
+        for t in ("T5e", "T6c", "T6a"):
+            add_windowed(t, "neutral", 2, 2, 13)
+            add_windowed(t, "adv", 1, 1, 13)
         for t in ("T4n", "T5b", "T5c", "T5h"):
             add_side_related(t, "neutral", 3, 3, window=0 if t == "T4n" else 13)
             add_side_related(t, "adv", 2, 2, window=0 if t == "T4n" else 13)
@@ -118,12 +134,20 @@ def big_instances(tier: str) -> list[dict]:
         else:
             spec = RuleSpec(verb, direction, exc, sk, S, ok, O)
         k = rnd.choice((10, 11, 12)) if tier == "quick" else rnd.choice((11, 12, 13))
-        win, bg = sensitive_window(rnd, nodes, spec, k)
+        inner = [p for p in deep_self_imports(nodes) if any(p[0] == m or p[0].startswith(m + ".") or m.startswith(p[0] + ".") for m in S + O)]
+        rnd.shuffle(inner)
+        win, bg = sensitive_window(rnd, nodes, spec, k, force=inner[:3])
         out.append({"tree": f"R{n}#{len(out)}", "naming": "mixed", "nodes": nodes, "window": [list(p) for p in win], "background": [list(p) for p in bg], "spec": spec.as_json()})
     return out
 
 
-def sensitive_window(rnd, nodes, spec: RuleSpec, k: int):
+def deep_self_imports(nodes) -> list:
+    """Ordered pairs (package, one of its own descendants two or more levels down): imports that stay inside a module
+    and must never influence a verdict, but that every walk over the package's sub-tree passes by."""
+    return [(x, y) for x in nodes for y in nodes if y.startswith(x + ".") and "." in y[len(x) + 1 :]]
+
+
+def sensitive_window(rnd, nodes, spec: RuleSpec, k: int, force=()):
     """Instance selection only (the reference semantics guide WHERE to look, not what is accepted): draw random
     concrete relations until the documented verdict is sensitive to at least one single import, then leave symbolic
     up to k/2 of those sensitive pairs, k/4 further pairs between subject / object / 'something else' modules, and
@@ -152,7 +176,8 @@ def sensitive_window(rnd, nodes, spec: RuleSpec, k: int):
             break
     A, sens = best
     rnd.shuffle(sens)
-    win = sens[: k // 2]
+    win = [p for p in force if p in set(pairs) and p not in amb][: k // 3]
+    win += [p for p in sens if p not in set(win)][: k // 2]
     rel = [p for p in sorted(relevant - amb) if p not in set(win)]
     rnd.shuffle(rel)
     win += rel[: max(k // 4, 0)]
